@@ -95,6 +95,7 @@ func genC17(seed int64, tier string, emit func(run.Case)) {
 		}
 	}
 	layGenCases(seed, tier, 17, 330, 70, 40, c17Opts, emit)
+	layNearOnlyCases(seed, tier, 1, emit)
 	// repository scripts that compile (dagre only in quick; thorough adds ELK on a sample)
 	r := gen.New(seed*31 + 17)
 	cor := Corpus()
